@@ -17,12 +17,40 @@ ASSUME = ["LineReader caches (lines, foend_to_fobeg, LRU) are transparent: valid
           "block-zero acceptance gate is outside the theorems of this file (bs-dependent; see known findings F1, F2)"]
 
 
+def oracle_blocksz_fixed(ctx):
+    """accounting-record files at block sizes that are NOT multiples of the record alignment: records (and their time values) then straddle
+    block boundaries at many different positions (seeded change C12-e: the time-value pre-pass read with oneblock=true stopped at the first
+    time value crossing a boundary). stdout at --blocksz b must equal stdout at the default."""
+    import os
+    from vlib import e2e
+    from vlib.props import C08
+    rng = e2e.Rng(ctx.seed * 977 + 5)
+    fails, ev = [], 0
+    n = 120 + rng.below(60)
+    data = b''.join(C08.rec(i, 1700000000 + i * 7 + rng.below(5), rng.below(1000000)) for i in range(n))
+    p = os.path.join(ctx.work, 'c12_fixed.wtmp')
+    open(p, 'wb').write(data)
+    rc0, out0, err0, _ = text_oracles.run_plain(p)
+    ev += 1
+    sizes = [385, 390, 401, 500, 777, 1000, 1023, 1537, 4097] + [384 + rng.below(3000) for _ in range(ctx.q(3, 12))]
+    for bs in sizes:
+        rc, out, err, _ = text_oracles.run_plain(p, ['--blocksz', str(bs)])
+        ev += 1
+        if (rc, out) != (rc0, out0):
+            fails.append({'signature': 'blocksz:stdout-differs-from-default', 'detail': f'{n}-record wtmp at --blocksz {bs}: rc={rc} vs {rc0}; {out.count(10)} lines vs {out0.count(10)}',
+                          'args': e2e.BASE_ARGS + ['--blocksz', str(bs), 'c12_fixed.wtmp'], 'records': n})
+    os.unlink(p)
+    return {'evaluations': ev, 'distinct_nontrivial': ev, 'failures': fails, 'samples': [],
+            'rule': f'a {n}-record Linux utmpx file at {len(sizes)} block sizes that are not multiples of 16 (records and time values straddle block boundaries): stdout == stdout at the default'}
+
+
 def oracle(ctx):
     a = text_oracles.oracle_blocksz(ctx, ctx.q(10, 60))
     b = text_oracles.known_gate_witnesses(ctx)
     c = text_oracles.search_from_disagreements(ctx, getattr(ctx, 'corr_results', []))
     d = text_oracles.known_mixed_notation_witness(ctx)
-    return core.merge_oracles([a, b, c, d])
+    e = oracle_blocksz_fixed(ctx)
+    return core.merge_oracles([a, b, c, d, e])
 
 
 def check(ctx):
